@@ -25,6 +25,10 @@ REP = {
     'hex': ["xs:hexBinary('0A')", "xs:hexBinary('0B')"], 'b64': ["xs:base64Binary('Cg==')", "xs:base64Binary('Cw==')"],
 }
 
+UNTYPED_FOR = {'int': '1', 'dec': '1.5', 'dbl': '1', 'flt': '1', 'str': 'a', 'anyURI': 'a', 'bool': 'true', 'qname': 'a', 'date': '2000-01-01',
+               'dateTime': '2000-01-01T00:00:00', 'time': '10:00:00', 'gYear': '2000', 'duration': 'P1Y1D', 'ymdur': 'P1Y', 'dtdur': 'P1D',
+               'hex': '0A', 'b64': 'Cg=='}
+
 
 def run(chk):
     import xml.etree.ElementTree as ET
@@ -38,7 +42,10 @@ def run(chk):
     for f in ('elementpath/xpath_tokens/base.py', 'elementpath/xpath1/_xpath1_operators.py', 'elementpath/xpath2/_xpath2_operators.py', 'elementpath/helpers.py'):
         chk.record_source(f)
     chk.forbidden_scan(['C07'])
-    proved = chk.prove(['theories/C07/Model.v', 'theories/C07/Run.v'], 'theories/C07/Properties.v')
+    import gen_c07
+    gen_c07.generate()          # source-shape facts regenerated from /repo on every run
+    chk.trusted.append('harness/shape.py: AST lookup of the statements mirrored by the hand model (Gen/C07Shape.v)')
+    proved = chk.prove(['theories/Gen/C07Shape.v', 'theories/C07/Model.v', 'theories/C07/Run.v'], 'theories/C07/Properties.v')
     model_ok = True
     if not proved:
         try:
@@ -77,6 +84,40 @@ def run(chk):
         if observable_defined != bool(spec):
             chk.violation('impl-vs-spec', desc, {'defined_on_impl': observable_defined, 'defined_by_F&O': bool(spec)})
         chk.nontrivial.add(repr((v, o, a, b)))
+
+    # ---- 1b. general comparison type table (= != < <= > >=), untypedAtomic conversion rules included
+    GOPS = ['=', '!=', '<', '<=', '>', '>=']
+    gcells = [(v, o, a, b) for v in (1, 0) for o in range(6) for a in range(len(TY)) for b in range(len(TY))]
+    gmodel = core.run_coq_cases('C07', IMPORTS, [f'run_gc {v} {o} {a} {b}' for v, o, a, b in gcells], chunk=700, tag='gc') if model_ok else [None] * len(gcells)
+    for (v, o, a, b), mo in zip(gcells, gmodel):
+        P = XPath31Parser if v else XPath2Parser
+        outcomes = set()
+        # an untypedAtomic operand against a typed one: a content that casts to the type of the other operand (the
+        # cast error FORG0001 of any other content is raised before the comparison is looked at)
+        ra = [f"xs:untypedAtomic('{UNTYPED_FOR[TY[b]]}')"] if TY[a] == 'untyped' and TY[b] != 'untyped' else REP[TY[a]][:2]
+        rb = [f"xs:untypedAtomic('{UNTYPED_FOR[TY[a]]}')"] if TY[b] == 'untyped' and TY[a] != 'untyped' else REP[TY[b]][:2]
+        for va in ra:
+            for vb in rb:
+                chk.evaluations += 1
+                expr = f'{va} {GOPS[o]} {vb}'
+                try:
+                    select(None, expr, item=1, parser=P)
+                    outcomes.add('value')
+                except ElementPathError as e:
+                    outcomes.add((e.code or '').split(':')[-1])
+                except Exception as e:
+                    chk.violation('foreign-exception', {'expr': expr}, repr(e)[:200])
+        chk.count('gc:' + GOPS[o])
+        if mo is None:
+            continue
+        defined, spec = mo
+        observable_defined = outcomes != {'XPTY0004'}
+        desc = {'parser': P.__name__, 'op': GOPS[o], 'types': [TY[a], TY[b]], 'outcomes': sorted(map(str, outcomes))}
+        if observable_defined != bool(defined):
+            chk.corr_fail.append((desc, 'value' if observable_defined else 'XPTY0004', 'value' if defined else 'XPTY0004'))
+        if observable_defined != bool(spec):
+            chk.violation('impl-vs-spec', desc, {'defined_on_impl': observable_defined, 'defined_by_XPath': bool(spec)})
+        chk.nontrivial.add(repr(('gc', v, o, a, b)))
 
     # ---- 2. general comparisons on integer sequences (exists semantics) + untyped conversions
     gcases = []
